@@ -44,7 +44,8 @@ def cfiLink (w : World) (a : Arch) (mask : Nat) (mem : Mem) (st : Frame) (e : Ex
     valid) or a frame with the validity set `validAfter`; the MIPS mode of the walk -/
 def CfiInv (a : Arch) (st : Frame) : Prop :=
   effArch a st.ctx = a ∧
-  ((st.trust = .context ∧ st.ctx.valid = none) ∨ (st.trust ≠ .context ∧ st.ctx.valid = some (validAfter a)))
+  ((st.trust = .context ∧ st.ctx.valid = none) ∨ (st.trust ≠ .context ∧ st.ctx.valid = some (validAfter a))) ∧
+  st.ctx.sp ≤ a.regMax
 
 /-- `f` is the (symbolised) frame `st` -/
 def CfiView (a : Arch) (f st : Frame) : Prop :=
@@ -174,7 +175,7 @@ theorem cfiOf_assemble {a : Arch} {w : World} {mask : Nat} {mem : Mem} {f : Fram
                 then assocSet f.ctx.rest a.fpName (e.fp.getD 0) else f.ctx.rest) =
              if a = .arm64 ∨ a = .arm64old then assocSet rest0 "fp" (assocGet rest0 "fp" &&& mask) else rest0) :
     cfiOf a w (modTable w.mods) (cfiTables w) mask mem f g = some (cfiFrame w a f e).ctx := by
-  obtain ⟨heff, htv⟩ := hinv
+  obtain ⟨heff, htv, _⟩ := hinv
   have hval : f.ctx.valid = none ∨ f.ctx.valid = some (validAfter a) := by
     rcases htv with h | h
     · exact Or.inl h.2
@@ -188,7 +189,7 @@ theorem cfiOf_link {a : Arch} {w : World} {mask : Nat} {mem : Mem} {f : Frame} {
     (hinv : CfiInv a f) (hl : cfiLink w a mask mem f e = true) :
     cfiOf a w (modTable w.mods) (cfiTables w) mask mem f g = some (cfiFrame w a f e).ctx := by
   have hinv' := hinv
-  obtain ⟨heff, htv⟩ := hinv
+  obtain ⟨heff, htv, _⟩ := hinv
   have hval : f.ctx.valid = none ∨ f.ctx.valid = some (validAfter a) := by
     rcases htv with h | h
     · exact Or.inl h.2
